@@ -71,6 +71,14 @@ class Ctx:
         out = os.path.join(VERIF, "build", "bin", "hx-%s%s" % (name, "-race" if race else ""))
         cmd = ["go", "build", "-tags", tags, "-o", out]
         env = {}
+        if os.path.realpath(REPO) != "/repo":
+            # scratch-worktree mode (VERIF_REPO=/tmp/wt): same harness sources, replace directives rewritten to that tree
+            alt = os.path.join(self.build, "alt.mod")
+            mod = open(os.path.join(VERIF, "harness", "go.mod")).read().replace("=> /repo/", "=> %s/" % os.path.realpath(REPO))
+            open(alt, "w").write(mod)
+            shutil.copy(os.path.join(VERIF, "harness", "go.sum"), os.path.join(self.build, "alt.sum"))
+            out = os.path.join(self.build, "hx-%s-alt%s" % (name, "-race" if race else ""))
+            cmd = ["go", "build", "-modfile=" + alt, "-tags", tags, "-o", out]
         if race:
             cmd.append("-race")
             env["CGO_ENABLED"] = "1"
@@ -201,7 +209,8 @@ class Ctx:
         ev = {"property_id": self.id, "tier": self.tier, "seed": self.seed, "level": level, "coverage": cov,
               "assumptions": self.assumptions, "wall_s": round(wall, 2), "violations": len(self.violations),
               "known_findings_reproduced": self.known_hits}
-        json.dump(ev, open(os.path.join(VERIF, "evidence", self.id + ".json"), "w"), indent=1, default=str)
+        evdir = os.path.join(VERIF, "evidence") if os.path.realpath(REPO) == "/repo" else self.build
+        json.dump(ev, open(os.path.join(evdir, self.id + ".json"), "w"), indent=1, default=str)
         for path, suffix in self.violations:
             print("VIOLATION property=%s replay=%s%s" % (self.id, path, suffix), flush=True)
         self.log("done: %d evaluations, %d distinct non-trivial, %d/%d obligations, %d violation(s), %.1fs" % (
